@@ -24,6 +24,9 @@ def aggr (name : String) (tagged : Bool) (binds : List Leaf) : Pred :=
 /-- a per-row family: one predicate per MSP row owned by the sender (see `Pred.perRow`) -/
 def Pred.rows (p : Pred) : Pred := { p with perRow := true }
 
+/-- the aggregate is compared with EVERY sender's claim (see `Pred.everySender`) -/
+def Pred.every (p : Pred) : Pred := { p with everySender := true }
+
 /-- session setup (pkg/mpc/session): the commitment key `Ck` is the sender's free choice -/
 def session : Graph :=
   { proto := "session"
@@ -68,7 +71,8 @@ def hjky : Graph :=
       (recv "zero-share-vs-vector" 2 true [b 1 "verificationVector", u 1 "zeroShare.value", u 1 "zeroShare.id"]).rows,
       recv "vector-commits-to-zero" 2 true [b 1 "verificationVector"]]
     gate := "share of zero verified against the summed vector"
-    vectors := [u 1 "zeroShare.value"] }
+    vectors := [u 1 "zeroShare.value"]
+    coherent := [⟨"nonzero", ["vector-commits-to-zero"]⟩] }
 
 /-- redistribution / refresh / recovery (pkg/mpc/redistribute), sender a previous shareholder -/
 def redistribute : Graph :=
@@ -81,10 +85,18 @@ def redistribute : Graph :=
       (recv "next-share-vs-contribution-vector" 3 true [b 2 "NextVerificationVectorContribution", u 2 "NextShareContribution.value", u 2 "NextShareContribution.id"]).rows,
       recv "agrees-with-own-previous-view" 3 true [b 2 "PrevMSP", b 2 "PrevVerificationVector", b 2 "ZeroVerificationVector"],
       recv "per-sender-partial-public-key" 3 true [b 2 "NextVerificationVectorContribution"],
-      recv "oldPk-equals-newPk" 3 false [b 2 "PrevVerificationVector", b 2 "NextVerificationVectorContribution"],
+      (recv "oldPk-equals-newPk" 3 false [b 2 "PrevVerificationVector", b 2 "NextVerificationVectorContribution"]).every,
       recv "aggregated-share-vs-aggregated-vector" 3 false [b 2 "NextVerificationVectorContribution", u 2 "NextShareContribution.value"]]
-    gate := "mpc.NewBaseShard after oldPk = newPk and the aggregated share check"
-    vectors := [u 2 "NextShareContribution.value"] }
+    gate := "mpc.NewBaseShard after oldPk = newPk (every sender's claim) and the aggregated share check"
+    vectors := [u 2 "NextShareContribution.value"]
+    -- a newcomer without a trusted anchor has ONLY `oldPk-equals-newPk` to tie the new key to the old one
+    coherent := [
+      ⟨"input0", ["agrees-with-own-previous-view", "per-sender-partial-public-key", "oldPk-equals-newPk"]⟩,
+      ⟨"input", ["agrees-with-own-previous-view", "per-sender-partial-public-key", "oldPk-equals-newPk"]⟩,
+      ⟨"nonzero", ["hjky-round2"]⟩,
+      ⟨"redeal", ["per-sender-partial-public-key", "oldPk-equals-newPk"]⟩,
+      ⟨"claim", ["agrees-with-own-previous-view", "oldPk-equals-newPk"]⟩,
+      ⟨"redeal+claim", ["agrees-with-own-previous-view", "oldPk-equals-newPk"]⟩] }
 
 /-- a newcomer deals nothing: its placeholder broadcasts are not read by anybody -/
 def redistributeNewcomer : Graph :=
@@ -104,7 +116,11 @@ def lindell22 : Graph :=
       recv "nonce-commitment-opens" 3 true [b 1 "bigRCommitment", b 2 "bigR", b 2 "bigROpening"],
       recv "dlog-pok-of-nonce" 3 true [b 2 "bigR", b 2 "bigRProof"],
       aggr "challenges-agree-and-signature-verifies" false [b 3 "signature.e", b 3 "signature.r", b 3 "signature.s"]]
-    gate := "Aggregator.Aggregate verifies the aggregated signature" }
+    gate := "Aggregator.Aggregate verifies the aggregated signature"
+    coherent := [
+      ⟨"nonzero", ["hjky-round2"]⟩,
+      ⟨"input0", ["challenges-agree-and-signature-verifies"]⟩,
+      ⟨"input", ["challenges-agree-and-signature-verifies"]⟩] }
 
 /-- DKLs23 with the SoftSpoken multiplier; round 5 = partial signatures to the aggregator.
 `psi` (round-4 unicast) is not checked by its recipient: a wrong value only spoils the signature,
@@ -122,7 +138,10 @@ def dkls23Softspoken : Graph :=
       recv "gammaV-consistency" 5 true [b 4 "pk", u 4 "gammaV"],
       recv "pk-sum" 5 false [b 4 "pk"],
       aggr "nonce-points-agree-and-signature-verifies" false [b 5 "r", b 5 "u", b 5 "w"]]
-    gate := "dkls23.Aggregate verifies the signature" }
+    gate := "dkls23.Aggregate verifies the signature"
+    coherent := [
+      ⟨"input0", ["pk-sum", "nonce-points-agree-and-signature-verifies"]⟩,
+      ⟨"input", ["pk-sum", "nonce-points-agree-and-signature-verifies"]⟩] }
 
 /-- DKLs23 with the base-OT multiplier (4 rounds); round 4 = partial signatures to the aggregator -/
 def dkls23Bbot : Graph :=
@@ -150,7 +169,10 @@ def boldyreva : Graph :=
       (aggr "partial-signature-verifies-under-the-senders-key-share" true [b 1 "sigma_i"]).rows,
       (aggr "pop-part-matches-the-rogue-key-mode" true [b 1 "sigma_pop_i"]).rows]
     gate := "Aggregator.Aggregate verifies every component of every partial signature against its row key"
-    vectors := [b 1 "sigma_i", b 1 "sigma_pop_i"] }
+    vectors := [b 1 "sigma_i", b 1 "sigma_pop_i"]
+    coherent := [
+      ⟨"input0", ["partial-signature-verifies-under-the-senders-key-share"]⟩,
+      ⟨"input", ["partial-signature-verifies-under-the-senders-key-share"]⟩] }
 
 def allGraphs : List Graph :=
   [session, gennaro, canetti, hjky, redistribute, redistributeNewcomer, lindell22, dkls23Softspoken, dkls23Bbot, boldyreva]
